@@ -353,9 +353,14 @@ Definition Pb12 (c : case) (o : obs) : bool :=
 Definition Pb14 (c : case) (o : obs) : bool :=
   let D := declared_obs c o in
   let xs := range_from 0 (Z.to_nat (o_bitn o)) in
+  (* the String() specification is stated for the bit-flag grammar (C14 bits_declared: non-negative
+     values, every bit of every declared value is a declared flag); outside it only the model is compared *)
+  let in_grammar := bits_declared_b (map snd D) || negb (f_bit (c_flags c)) in
   o_built o
-  && list_eqb String.eqb (o_bitstr o) (if f_bit (c_flags c) then map (spec_bit_string c D) xs else [])
-  && forallb (fun xo => let '(x, (s, _)) := xo in String.eqb s (spec_string c D x)) (o_points o)
+  && (negb in_grammar ||
+      list_eqb String.eqb (o_bitstr o) (if f_bit (c_flags c) then map (spec_bit_string c D) xs else []))
+  && (negb in_grammar ||
+      forallb (fun xo => let '(x, (s, _)) := xo in String.eqb s (spec_string c D x)) (o_points o))
   && forallb (fun fo =>
        let '(f, (hm, (adds, rems))) := fo in
        let hasb (y : Z) := Z.testbit hm y in
